@@ -43,6 +43,10 @@ const daeIfindex = 77
 
 // frame builds eth? + ip + l4 (TCP SYN, or UDP with 4 payload bytes). tos is the IPv4 TOS / IPv6 traffic class.
 func frame(l2 bool, src, dst netip.AddrPort, proto uint8, tos uint8) (b []byte, ethertype uint16) {
+	return frameFlags(l2, src, dst, proto, tos, 0x02) // TCP: SYN
+}
+
+func frameFlags(l2 bool, src, dst netip.AddrPort, proto uint8, tos uint8, tcpFlags uint8) (b []byte, ethertype uint16) {
 	v6 := src.Addr().Is6() && !src.Addr().Is4In6()
 	if l2 {
 		b = append(b, dstMAC[:]...)
@@ -60,7 +64,7 @@ func frame(l2 bool, src, dst netip.AddrPort, proto uint8, tos uint8) (b []byte, 
 		binary.BigEndian.PutUint16(l4[2:], dst.Port())
 		binary.BigEndian.PutUint32(l4[4:], 1000)
 		l4[12] = 5 << 4
-		l4[13] = 0x02 // SYN
+		l4[13] = tcpFlags
 		binary.BigEndian.PutUint16(l4[14:], 65535)
 	} else {
 		l4 = make([]byte, 12)
